@@ -268,6 +268,11 @@ def result_outcomes(body, du, path):
             src = rv["a"]["p"]["l"] if rv["k"] == "use" and rv["a"]["k"] in ("copy", "move") and not rv["a"]["p"]["proj"] else None
             if src is not None and src in env:
                 env[l] = env[src]
+            elif rv["k"] == "ref" and not rv["p"]["proj"] and rv["p"]["l"] in env:
+                env[l] = env[rv["p"]["l"]]          # `&res` handed to is_ok()/is_some()
+            elif rv["k"] == "unop" and rv["op"] == "Not" and rv["a"]["k"] in ("copy", "move") and not rv["a"]["p"]["proj"] and env.get(rv["a"]["p"]["l"], ("",))[0] == "test":
+                v_ = env[rv["a"]["p"]["l"]]
+                env[l] = ("test", v_[1], not v_[2])
             elif rv["k"] == "agg" and norm(rv.get("adt") or "") in ("std::result::Result", "std::option::Option"):
                 a_ = body.facts.nadts.get(norm(rv["adt"])) or {"variants": []}
                 vn = [v_["name"] for v_ in a_["variants"] if str(v_.get("discr")) == str(rv["variant"]) or v_["name"] == rv["variant"]]
@@ -288,13 +293,28 @@ def result_outcomes(body, du, path):
                 val = ("cf", v[1]) if v[0] in ("res", "cf") else ("knowncf", v[1])
             elif c.endswith("from_residual"):
                 val = ("known", "Err")
+            elif c in _VARIANT_TESTS and a0l in env and env[a0l][0] in ("res", "cf"):
+                # `res.is_ok()` / `is_some()` ..: a later branch on this bool fixes the outcome of the call behind `res`
+                val = ("test", env[a0l][1], _VARIANT_TESTS[c] in ("Ok", "Some"))
             else:
                 val = ("res", x)
             if dl is not None:
                 env[dl] = val
         elif t["k"] == "switch" and idx + 1 < len(path):
             si = switch_info(body, du, x)
-            if si["kind"] == "discr" and not si["place"]["proj"] and si["place"]["l"] in env:
+            dl_ = op_local(t["discr"])
+            if t.get("dty") == "bool" and dl_ in env and not t["discr"]["p"]["proj"] and env[dl_][0] == "test":
+                nxt = path[idx + 1]
+                ones = [bb for v_, bb in t["targets"] if int(v_) == 1]
+                zeros = [bb for v_, bb in t["targets"] if int(v_) == 0]
+                bval = True if nxt in ones else False if nxt in zeros else (bool(zeros) if nxt == t.get("otherwise") and bool(zeros) != bool(ones) else None)
+                if bval is not None:
+                    _k, cid, pos = env[dl_]
+                    r_ = "ok" if bval == pos else "err"
+                    if out.get(cid, r_) != r_:
+                        return out, False
+                    out[cid] = r_
+            elif si["kind"] == "discr" and not si["place"]["proj"] and si["place"]["l"] in env:
                 v = env[si["place"]["l"]]
                 nxt = path[idx + 1]
                 names = [n for n, bb in si["arms"].items() if bb == nxt]
